@@ -159,7 +159,7 @@ type Interp struct {
 	fnCount   map[*ssa.Function]int64
 	curFrame  *frame
 	noFork    int // >0: inside speculative merge region; forks abort the merge
-	hashes    []*hashRec
+	hashes    []int
 	natives   map[string]interface{}
 	sched     *scheduler
 	inInit    bool
